@@ -251,7 +251,7 @@ var c02S2SDefects = map[string][]string{
 	"validity":   {"validity_long", "validity_long", "validity_long", "validity_no_exp", "validity_stale"},
 	"nonce":      {"nonce_missing", "nonce_reused"},
 	"subject":    {"signer_not_subject", "foreign_cred_in_vp", "mixed_subjects", "mixed_subjects_via_empty_vp"},
-	"definition": {"foreign_definition", "unfulfilled", "forged_map", "scope_unknown", "scope_other", "scope_near_miss", "scope_near_miss", "nothing_presented", "nothing_presented"},
+	"definition": {"foreign_definition", "unfulfilled", "forged_map", "forged_map_outside", "forged_map_outside", "scope_unknown", "scope_other", "scope_near_miss", "scope_near_miss", "nothing_presented", "nothing_presented"},
 	"verify":     {"bad_vp_sig", "bad_vc_sig", "cred_revoked", "cred_expired"},
 	"params":     {"param_missing", "garbage"},
 }
@@ -260,7 +260,7 @@ var c02CodeDefects = map[string][]string{
 	"aud":        {"aud_wrong", "aud_absent", "aud_near_miss", "aud_near_miss", "aud_equivalent", "aud_array_contains"},
 	"nonce":      {"nonce_missing", "nonce_foreign"},
 	"subject":    {"signer_not_subject", "foreign_cred_in_vp", "mixed_subjects", "mixed_subjects_via_empty_vp"},
-	"definition": {"foreign_definition", "unfulfilled", "forged_map", "scope_unknown", "scope_near_miss", "scope_near_miss", "nothing_presented", "nothing_presented"},
+	"definition": {"foreign_definition", "unfulfilled", "forged_map", "forged_map_outside", "forged_map_outside", "scope_unknown", "scope_near_miss", "scope_near_miss", "nothing_presented", "nothing_presented"},
 	"verify":     {"bad_vp_sig", "bad_vc_sig", "cred_revoked", "cred_expired"},
 	"token":      {"code_wrong", "code_reused", "token_client_id_wrong", "verifier_wrong", "verifier_missing", "state_wrong", "code_path_variant", "code_instead_of_presentation"},
 }
